@@ -111,11 +111,14 @@ static void check_tsimpr()
 }
 
 // ---------------------------------------------------------------- adaptive quadrature
-struct Fn { int id; double p; };
-static double f_smooth(double x, void * q)
+struct Fn { int id; double p; double scale = 1.0; };
+static double f_smooth_unscaled(double x, void * q);
+static double f_smooth(double x, void * q) { return ((Fn *)q)->scale * f_smooth_unscaled(x, q); }
+static double f_smooth_unscaled(double x, void * q)
 {
   Fn * f = (Fn *)q;
   switch (f->id) {
+  case 5: return std::exp(-x) * std::cos(f->p * x); // smooth, oscillating: needs the finer QNG stages
   case 0: return std::exp(-f->p * x);
   case 1: return 1.0 / (1.0 + f->p * x * x);
   case 2: return std::pow(x, 5) - 2 * x * x + f->p + 1;
@@ -131,16 +134,22 @@ static double F_smooth(int id, double p, double a, double b)
   case 1: return (std::atan(std::sqrt(p) * b) - std::atan(std::sqrt(p) * a)) / std::sqrt(p);
   case 2: return (std::pow(b, 6) - std::pow(a, 6)) / 6 - 2 * (b * b * b - a * a * a) / 3 + (p + 1) * (b - a);
   case 3: return (std::cos(p * a) - std::cos(p * b)) / p + 2 * (b - a);
+  case 5: {
+    auto G = [&](double x) { return std::exp(-x) * (p * std::sin(p * x) - std::cos(p * x)) / (1 + p * p); };
+    return G(b) - G(a);
+  }
   }
   return NAN;
 }
 static void check_gauss()
 {
-  for (int id = 0; id <= 4; id++)
-    for (double p : {0.5, 1.0, 3.0, 10.0})
-      for (auto iv : {std::pair<double, double>{0, 1}, {1e-4, 2.5}, {0.2, 0.9}})
-        for (double eps : {1e-3, 1e-4, 1e-6}) {
-          Fn f{id, p};
+  for (int id = 0; id <= 5; id++)
+    for (double p : {0.5, 1.0, 3.0, 10.0, 12.0})
+      for (auto iv : {std::pair<double, double>{0, 1}, {1e-4, 2.5}, {0.2, 0.9}, {0, 4}})
+        for (double eps : {1e-3, 1e-4, 1e-6})
+         for (double scale : {1.0, 1e-6, 1e-9, 1e-12, 1e3}) {
+          Fn f{id, p, scale};
+          if (id != 5 && id != 0 && scale != 1.0 && scale != 1e-9) continue;
           double a = iv.first, b = iv.second;
           if (id == 4) { b = std::min(b, p); if (b <= a) continue; }
           double r = bxdecay0::decay0_gauss(f_smooth, a, b, eps, &f);
@@ -156,7 +165,7 @@ static void check_gauss()
               s += w * f_smooth((double)x, &f);
             }
             ex = (double)(s * h / 3);
-          } else ex = F_smooth(id, p, a, b);
+          } else ex = scale * F_smooth(id, p, a, b);
           g_eval++;
           g_nontrivial++;
           if (!(std::fabs(r - ex) <= eps * std::fabs(ex) * 1.0000001 + 1e-300))
